@@ -89,6 +89,10 @@ func c04(r *core.Run) {
 				plans = append(plans, &fault{Kind: "exception+write-error", Gate: g, K: (int64(i) * 7) % cliBytes})
 			}
 		}
+		// the scenario's own server exception as the only failure: the client stays open and usable
+		if sc.EndsExc {
+			plans = append(plans, &fault{Kind: "none"})
+		}
 		// exception consumed while a write is in flight, which then fails part-way
 		for _, g := range gates {
 			if strings.HasPrefix(g, "write:before:") {
